@@ -665,7 +665,8 @@ class Generator:
         v = self.pick()
         if v is None or not self.room():
             return
-        self.emit({"op": "astype", "src": v, "dtype": self.rng.choice(ALL_DTYPES), "dst": self.fresh()}, "astype")
+        dt = self.info(v)[2].name if self.rng.random() < 0.25 else self.rng.choice(ALL_DTYPES)   # (often a no-op cast)
+        self.emit({"op": "astype", "src": v, "dtype": dt, "dst": self.fresh()}, "astype")
 
     def g_to_numpy(self):
         vs = [v for v in self.vars() if len(set(self.info(v)[1])) <= 1]
